@@ -91,17 +91,21 @@ theorem execF_muIgn : ∀ (ops : List Op) (f : Fault) (s : Bucket),
 theorem execF_mu : ∀ (ops : List Op) (f : Fault) (s : Bucket),
     ∃ k, (execF f (ops.map .mu) s).1.trace = ops.take k ∧
       (execF f (ops.map .mu) s).1.bkt = applyAll s (ops.take k) ∧
-      ((execF f (ops.map .mu) s).1.ok = true → (execF f (ops.map .mu) s).1.trace = ops)
+      ((execF f (ops.map .mu) s).1.ok = true → (execF f (ops.map .mu) s).1.trace = ops) ∧
+      ((execF f (ops.map .mu) s).1.trace.length = ops.length → (execF f (ops.map .mu) s).1.ok = true)
   | [], f, s => ⟨0, by simp [execF, applyAll]⟩
   | op :: ops, f, s => by
     simp only [List.map_cons, execF]
     split
     · exact ⟨0, by simp [applyAll]⟩
-    · obtain ⟨k, h1, h2, h3⟩ := execF_mu ops f.passMut (apply s op)
-      refine ⟨k + 1, by simp [h1], by simp [applyAll_cons, h2], ?_⟩
-      intro hok
-      simp only at hok
-      rw [h3 hok]
+    · obtain ⟨k, h1, h2, h3, h4⟩ := execF_mu ops f.passMut (apply s op)
+      refine ⟨k + 1, by simp [h1], by simp [applyAll_cons, h2], ?_, ?_⟩
+      · intro hok
+        simp only at hok
+        rw [h3 hok]
+      · intro hl
+        simp only [List.length_cons, Nat.add_right_cancel_iff] at hl
+        exact h4 hl
 
 -- ---------------------------------------------------------------- block.Upload under faults
 
@@ -127,7 +131,8 @@ theorem uploadF_shape (f : Fault) (n : Nat) (b : Block) (s : Bucket) :
       (∀ op ∈ t1, op ∈ chunkPuts n b) ∧
       ((t2 = [] ∧ ((uploadF f n b s).1.ok = true → False)) ∨
        (t1 = chunkPuts n b ∧ ∃ k, t2 = (tailPuts n b).take k ∧
-          ((uploadF f n b s).1.ok = true → t2 = tailPuts n b))) := by
+          ((uploadF f n b s).1.ok = true → t2 = tailPuts n b) ∧
+          (t2 = tailPuts n b → (uploadF f n b s).1.ok = true))) := by
   unfold uploadF
   simp only [chunkCalls_eq, tailCalls_eq]
   obtain ⟨h1, h2, h3, h4⟩ := execF_muIgn (chunkPuts n b) f s
@@ -138,13 +143,17 @@ theorem uploadF_shape (f : Fault) (n : Nat) (b : Block) (s : Bucket) :
       apply h4
       have : (chunkPuts n b).length = b.chunks.length := by simp [chunkPuts]
       omega
-    obtain ⟨k, k1, k2, k3⟩ := execF_mu (tailPuts n b) (execF f ((chunkPuts n b).map .muIgn) s).2
+    obtain ⟨k, k1, k2, k3, k4⟩ := execF_mu (tailPuts n b) (execF f ((chunkPuts n b).map .muIgn) s).2
       (execF f ((chunkPuts n b).map .muIgn) s).1.bkt
-    refine ⟨_, (tailPuts n b).take k, ?_, by simp [k1], h2, Or.inr ⟨hfull, k, rfl, ?_⟩⟩
+    refine ⟨_, (tailPuts n b).take k, ?_, by simp [k1], h2, Or.inr ⟨hfull, k, rfl, ?_, ?_⟩⟩
     · rw [k2, h1]
     · intro hok
       simp only at hok
       rw [← k1]; exact k3 hok
+    · intro hfull2
+      simp only
+      apply k4
+      rw [k1, hfull2]
 
 theorem uploadF_isPut (f : Fault) (n : Nat) (b : Block) (s : Bucket) :
     ∃ ops, (uploadF f n b s).1.bkt = applyAll s ops ∧ ∀ op ∈ ops, ∃ g o, op = .put (n, g) o := by
@@ -170,7 +179,7 @@ theorem upload_keeps (f : Fault) (n : Nat) (b : Block) (s : Bucket) (key : Key)
 theorem upload_ok_visible (f : Fault) (n : Nat) (b : Block) (s : Bucket)
     (h : (uploadF f n b s).1.ok = true) : Visible (uploadF f n b s).1.bkt n := by
   obtain ⟨t1, t2, hb, _, _, h2⟩ := uploadF_shape f n b s
-  rcases h2 with ⟨_, hf⟩ | ⟨_, k, _, hk⟩
+  rcases h2 with ⟨_, hf⟩ | ⟨_, k, _, hk, _⟩
   · exact absurd h (fun h => hf h)
   · rw [hb, hk h]
     simp only [tailPuts, applyAll_cons, applyAll_nil, apply, Visible, get_put]
@@ -186,7 +195,7 @@ theorem good_uploadF {w : Nat → Block} (hw : WF w) (f : Fault) (n : Nat) (s : 
     obtain ⟨g, sz, e, hf⟩ := chunkPuts_data (h1 op hop)
     exact ⟨n, g, sz, e, hf⟩
   have hg1 : Good w (applyAll s t1) := good_all hw t1 s hs (safeRun_dataPuts t1 s hd1)
-  rcases h2 with ⟨e, _⟩ | ⟨e1, k, e2, _⟩
+  rcases h2 with ⟨e, _⟩ | ⟨e1, k, e2, _, _⟩
   · rw [e]; simpa [applyAll] using hg1
   · rw [e2]
     apply good_prefix hw _ _ hg1
@@ -201,6 +210,52 @@ theorem good_uploadF {w : Nat → Block} (hw : WF w) (f : Fault) (n : Nat) (s : 
         subst e; trivial) (n, g) (.data sz) (List.mem_map.mpr ⟨(g, sz), hg, rfl⟩)
     · cases hg
       simp [apply, get_put]
+
+theorem get_applyAll_puts_ne : ∀ (ops : List Op) (s : Bucket) (key : Key),
+    (∀ op ∈ ops, ∃ k o, op = .put k o ∧ k ≠ key) → get (applyAll s ops) key = get s key
+  | [], s, _, _ => rfl
+  | op :: ops, s, key, h => by
+    obtain ⟨k, o, rfl, hne⟩ := h op (by simp)
+    rw [applyAll_cons, get_applyAll_puts_ne ops _ key (fun op hop => h op (List.mem_cons_of_mem _ hop))]
+    simp only [apply, get_put]
+    have : ¬ key = k := fun e => hne e.symm
+    simp [this]
+
+/-- an upload of block `n` does not touch the objects of any other block -/
+theorem uploadF_other (f : Fault) (n : Nat) (b : Block) (s : Bucket) (m : Nat) (g : String) (hm : m ≠ n) :
+    get (uploadF f n b s).1.bkt (m, g) = get s (m, g) := by
+  obtain ⟨ops, hb, hp⟩ := uploadF_isPut f n b s
+  rw [hb]
+  apply get_applyAll_puts_ne
+  intro op hop
+  obtain ⟨g', o, rfl⟩ := hp op hop
+  exact ⟨_, _, rfl, fun e => hm (by cases e; rfl)⟩
+
+/-- an upload that FAILED did not make the block visible (meta.json is the last call) -/
+theorem uploadF_fail_invisible (f : Fault) (n : Nat) (b : Block) (s : Bucket)
+    (hnames : ∀ p ∈ b.chunks, p.1 ≠ metaName) (hinv : ¬ Visible s n)
+    (hfail : (uploadF f n b s).1.ok = false) : ¬ Visible (uploadF f n b s).1.bkt n := by
+  obtain ⟨t1, t2, hb, _, h1, h2⟩ := uploadF_shape f n b s
+  have hchunks : ∀ op ∈ t1, ∃ k o, op = Op.put k o ∧ k ≠ (n, metaName) := by
+    intro op hop
+    obtain ⟨p, hp, rfl⟩ := List.mem_map.mp (h1 op hop)
+    exact ⟨_, _, rfl, fun e => hnames p hp (Prod.mk.inj e).2⟩
+  have ht2 : ∀ op ∈ t2, ∃ k o, op = Op.put k o ∧ k ≠ (n, metaName) := by
+    rcases h2 with ⟨e, _⟩ | ⟨_, k, e, _, hconv⟩
+    · rw [e]; intro op hop; simp at hop
+    · intro op hop
+      have hne : t2 ≠ tailPuts n b := fun e' => by rw [hconv e'] at hfail; cases hfail
+      rw [e] at hop hne
+      -- a strict prefix of [index, meta] is [] or [index]
+      match k, hop, hne with
+      | 0, hop, _ => simp at hop
+      | 1, hop, _ =>
+        simp [tailPuts] at hop
+        exact ⟨_, _, hop, by simp [indexName, metaName]⟩
+      | k + 2, _, hne => simp [tailPuts] at hne
+  unfold Visible at hinv ⊢
+  rw [hb, get_applyAll_puts_ne t2 _ _ ht2, get_applyAll_puts_ne t1 _ _ hchunks]
+  exact hinv
 
 theorem uploadF_none (n : Nat) (b : Block) (s : Bucket) :
     (uploadF Fault.none n b s).1.ok = true ∧ (uploadF Fault.none n b s).2 = Fault.none := by
@@ -307,6 +362,19 @@ theorem checkerSync_some {locals : List LBlock} {s : Bucket} (hk : KeysLocal loc
   intro n hn
   simp only [Bool.not_true, Bool.false_or, List.mem_filter] at hn
   refine ⟨hn.2, ?_⟩
+  obtain ⟨p, hp, e⟩ := mem_dirsOf hn.1
+  obtain ⟨b, hb, e'⟩ := hk p hp
+  exact ⟨b, hb, by rw [e', e]⟩
+
+theorem checkerSyncL_some {locals : List LBlock} {s : Bucket} {lbl : List (Nat × Nat)} {cur : Nat}
+    (hk : KeysLocal locals s) : ∃ rs, checkerSyncL locals s lbl cur = some rs ∧ LocalRanges locals rs := by
+  obtain ⟨rs0, h0, _⟩ := checkerSync_some hk
+  unfold checkerSyncL
+  simp only [codeSkipPartial, h0]
+  apply collectRanges_some
+  intro n hn
+  simp only [Bool.not_true, Bool.false_or, List.mem_filter, Bool.and_eq_true] at hn
+  refine ⟨hn.2.1, ?_⟩
   obtain ⟨p, hp, e⟩ := mem_dirsOf hn.1
   obtain ⟨b, hb, e'⟩ := hk p hp
   exact ⟨b, hb, by rw [e', e]⟩
